@@ -427,9 +427,12 @@ class BSpline(Spline):
             b_other = other.basis(basis._x)
             basis_product = b_self[:, pairs[0]].multiply(b_other[:, pairs[1]])
             T = basis.transform(lambda y: basis_product.toarray()[y, :])
+            def rows(c, idx):
+                # Select coefficient rows (a matrix of coefficients has one column per component)
+                return c[idx, :] if len(getattr(c, 'shape', ()))==2 else c[idx]
             try:
-                coeffs_product = (self.coeffs[pairs[0].tolist()] *
-                                  other.coeffs[pairs[1].tolist()])
+                coeffs_product = (rows(self.coeffs, pairs[0].tolist()) *
+                                  rows(other.coeffs, pairs[1].tolist()))
             except:  # cvxopt, cvxpy, assuming other.coeffs is not a variable
                 S = np.zeros((len(pairs[0]), len(self)))
                 S[[list(range(len(pairs[0]))), pairs[0]]] = 1.
